@@ -14,7 +14,7 @@ def b64_text(r, data):
 
 
 def gen_codec(rng, tier, mult):
-    n = (260 if tier == "quick" else 4000) * mult
+    n = (2000 if tier == "quick" else 60000) * mult
     cases = []
     # systematic: every byte value in every position mod 3, every length mod 3
     sysops = []
@@ -136,16 +136,21 @@ def classify(case, out):
     tags = set()
     for o in case:
         tags.add("op:" + o.split(" ", 1)[0])
-    for l in out:
+    for o, l in zip(case, out):
         w = l.split(" ")
+        op = o.split(" ")
+        if w[0] == "jfindv" and len(w) > 1 and len(op) > 1:
+            n = 0 if op[1] == "-" else len(op[1]) // 2
+            tags.add("jfindv:end" if w[1] == str(n) else "jfindv:member-found")
+        elif w[0] == "skipvv":
+            tags.add("skipvv:" + {"n": "null", "t": "bool", "f": "bool", "#": "number", "s": "string", "a": "array",
+                                  "A": "array", "o": "object", "O": "object"}.get(op[3][:1], "?"))
         if w[0] == "b64dec":
             tags.add("b64dec:" + w[1])
         elif w[0] in ("unhex", "unhexb"):
             tags.add("unhex:" + w[1])
         elif w[0] == "sres":
             tags.add("sres:" + w[1] + (":fam" + w[2] if len(w) > 2 else ""))
-        elif w[0] == "jfindv":
-            tags.add("jfindv:" + ("notfound-or-end" if False else "answered"))
     return sorted(tags)
 
 
